@@ -65,7 +65,7 @@ class Chooser:
             self.trace.append(v)
             return v
         # symbolic: fork with tracing switched on for the comparisons only (callers run under NoTracing)
-        with ResumedTracing():
+        if is_tracing():
             k = 0
             v = n - 1
             while k < n - 1:
@@ -73,6 +73,15 @@ class Chooser:
                     v = k
                     break
                 k += 1
+        else:
+            with ResumedTracing():
+                k = 0
+                v = n - 1
+                while k < n - 1:
+                    if x == k:
+                        v = k
+                        break
+                    k += 1
         self.trace.append(v)
         return v
 
@@ -88,8 +97,39 @@ class Chooser:
 # ---------------------------------------------------------------------------------------------
 
 
+_PATCHED = False
+
+
+def patch_crosshair():
+    """CrossHair 0.0.110 mis-slices symbolic strings when a slice bound is negative (`line[9:-2]` on a symbolic
+    concatenation compares unequal to the characters it contains - a false counterexample that the replay step caught).
+    Negative bounds are normalised against the realised length before CrossHair's own slicing runs."""
+    global _PATCHED
+    if _PATCHED:
+        return
+    from crosshair.libimpl import builtinslib as bl
+    from crosshair.core import deep_realize, realize
+
+    orig = bl.LazyIntSymbolicStr.__getitem__
+
+    def getitem(self, i):
+        if isinstance(i, slice):
+            with NoTracing():
+                i = deep_realize(i)
+                if (i.start is not None and i.start < 0) or (i.stop is not None and i.stop < 0):
+                    with ResumedTracing():
+                        n = len(self)
+                    n = realize(n)
+                    i = slice(*i.indices(n))
+        return orig(self, i)
+
+    bl.LazyIntSymbolicStr.__getitem__ = getitem
+    _PATCHED = True
+
+
 def _work(modname, fname, shard, timeout, per_path_timeout, globs):
     import z3
+    patch_crosshair()
     from crosshair.core_and_libs import analyze_function, run_checkables
     from crosshair.options import AnalysisOptionSet
 
